@@ -967,6 +967,10 @@ func c05Run(rc *core.RunCtx) {
 		return
 	}
 	c05PartD(rc)
+	if rc.Expired() || rc.Done() {
+		return
+	}
+	c05PartE(rc)
 }
 
 func init() {
